@@ -1052,6 +1052,12 @@ func (r *runner) execTx(op *Op) {
 			}
 			r.probe("tx-commit-failed")
 			r.failedEpoch = append(r.failedEpoch, bi)
+			if op.Ms > 0 {
+				// the application takes its time before it gives up: in
+				// the meantime background commits may go through
+				simrt.IdleFor(time.Duration(op.Ms) * time.Millisecond)
+				r.probe("tx-discard-delayed")
+			}
 			// release the transaction so later writers can proceed
 			tr.Discard()
 		}
